@@ -248,7 +248,7 @@ def fuzz_target():
 
 def plan(tier, seed, scale):
     K = 16
-    total = int((10000 if tier == "quick" else 200000) * scale)
+    total = int((10000 if tier == "quick" else 140000) * scale)
     tasks = [{"name": "rand-%d" % i, "n": max(total // K, 10), "shard": i,
               "depth": 3 if tier == "quick" else 4} for i in range(K)]
     for n in ([130, 300, 600, 1500, 4000] if tier == "quick" else [130, 300, 600, 1500, 4000, 20000, 60000]):
